@@ -94,13 +94,13 @@ def main():
           "technique": tech,
         })
     na=[{"property_id":k,"reason":v} for k,v in sorted({**NOT_YET, **PENDING}.items())]
-    hooks_commits=['b8a28ca']
+    hooks_commits=['b8a28ca', '2d4be83']
     m={
       "version":1,
       "setup_cmd":"./check build",
       "hooks":{
         "guard":"--cfg jammdb_verif",
-        "enable":"the shuttle checks (C04, C09, C13) build /repo's sources through a generated shadow manifest with RUSTFLAGS=--cfg jammdb_verif; all other checks build /repo unmodified",
+        "enable":"the shuttle checks (C04, C09, C13 and the threaded part of C10) build /repo's sources through a generated shadow manifest (adds shuttle and the shim crate /verif/sim-sh/shim) with RUSTFLAGS=--cfg jammdb_verif: src/sync.rs then takes Mutex / RwLock from the shim (shuttle's mutex; a reader-writer lock on shuttle primitives whose priority policy the simulator picks per execution); all other checks build /repo unmodified",
         "baseline_off_cmd":"cd /repo && cargo test --workspace --no-fail-fast --offline",
         "source_commits":hooks_commits,
         "add_only": False,
